@@ -54,7 +54,14 @@ impl<'de> serde::Deserializer<'de> for TableDeserializer {
                 .clone()
                 .or_else(|| super::span_of_children(&self.items));
             if let Some(span) = span {
-                return visitor.visit_map(super::SpannedDeserializer::new(self, span));
+                return visitor
+                    .visit_map(super::SpannedDeserializer::new(self, span.clone()))
+                    .map_err(|mut e: Self::Error| {
+                        if e.span().is_none() {
+                            e.set_span(Some(span));
+                        }
+                        e
+                    });
             }
         }
 
